@@ -41,11 +41,13 @@ def gen_case(rng, tier):
         if size_class == "spans_codec_blocks":
             # larger than one internal block of the codecs (bzip2 -1: 100 kB, deflate stored blocks: 64 KiB, LZ4: 64 KiB)
             bsz = rng.choice((4096, 65536))
-            content, msgs = world.gen_big_text_log(rng, rng.choice((140_000, 300_000, 700_000)))
+            # (several codec blocks, and for the small read blocks also many read blocks; one log in three in an unbracketed
+            # or an epoch notation -- the latter is a year-less one for the reader, which then walks the file backwards first)
+            content, msgs = world.gen_big_text_log(rng, rng.choice((140_000, 300_000, 700_000)), notation=rng.choice((1, 1, 1, 1, 6, 8)))
         else:
             n = {"small": rng.randint(1, 6), "one_block": 3, "exact_multiple": 8, "many_blocks": rng.randint(30, 120)}[size_class]
             src = merge.gen_sources(rng, 1, bsz, max_msgs=n, containers=("plain",), allow_degenerate=False,
-                                    tie_heavy=False, frac_choices=(3, 6), first_line_max=None)[0]
+                                    tie_heavy=False, frac_choices=(3, 6), first_line_max=None, notations=merge.NOTATIONS_WIDE)[0]
             content, msgs = src.plain, src.msgs
         base = "c.log"
         opts += ["--blocksz", str(bsz)]
